@@ -66,8 +66,9 @@ def run(ctx, replay, prop):
                             "ideal3", workers=ctx.workers, timeout=3000)
         hist_cex = []
         for dev in PROP_DEVS[prop]:
-            out, st = ctx.expect_counterexample(D, "Gen_Sync", consts(2, False, 4, 1, [dev]) + "  MaxLen = 8\n  Mode = \"none\"\nSPECIFICATION GSpec\nVIEW GView\nCONSTRAINT Bound\n" +
-                                                INV[prop].replace("PROPERTIES TombstonesKept\n", "") + "CHECK_DEADLOCK FALSE\n", "cex_" + dev, workers=4)
+            # (rows x and y of one entity for the reference deviation, so that its witness is not also a witness of the single-entity one)
+            out, st = ctx.expect_counterexample(D, "Gen_Sync", consts(2, dev == "EdgesOnlyWithNewerNode", 4, 1, [dev]) + "  MaxLen = 8\n  Mode = \"none\"\nSPECIFICATION GSpec\nVIEW GView\nCONSTRAINT Bound\n" +
+                                                INV[prop].replace("PROPERTIES TombstonesKept\n", "") + "CHECK_DEADLOCK FALSE\n", "cex_" + dev, workers=1)
             h = last_hist(out)
             if st.get("violated") and h:
                 hist_cex.append((dev, h))
